@@ -21,6 +21,8 @@
            the frontier responders; at least one lost entry is of this second kind,
          - code 1 otherwise (truncation although >= WriteQuorum holders answered every round, or
            although the guard is false on the observed states: the install had to fail closed).
+   An Install whose authority is older than one installed successfully before (on any node) is a stale
+   leader, not a failover: it is not examined (its writes are fenced by the voters; C04 covers it).
    Entries reported lost by a code-2/3 step are moved to a separate list, so that the aftermath of the
    known defect is not reported as something else: the index may be reused, and a deposed leader may
    still replay the old receipt from its retained-command cache (a receipt that only covers entries
@@ -29,7 +31,7 @@ From WK Require Import Base.Base.
 From WK Require Export Model.ReplicaLog Model.QuorumLog Model.Cluster.
 Open Scope N_scope.
 
-Record c01_state := C01State { ca_acked : list (N * N); ca_down : list N; ca_lost : list (N * N) }.
+Record c01_state := C01State { ca_acked : list (N * N); ca_down : list N; ca_lost : list (N * N); ca_max : authid }.
 
 Fixpoint acked_at (l : list (N * N)) (idx : N) : option N :=
   match l with
@@ -66,11 +68,16 @@ Definition c01_step (cfg : qconfig) (st : c01_state) (prev : list (N * robs))
       let fresh := existsb (fun p => negb (known p)) new in
       let holders := countb (fun w => forallb (holds full w) new) vs in
       let code := if missing || changed then 1 else if fresh && (holders <? cf_quorum cfg) then 1 else 0 in
-      (C01State (filter (fun p => negb (known p)) new ++ ca_acked st) (ca_down st) (ca_lost st), code)
-  | OInstall node _ _ _ f, RInstalled _ _ _ =>
+      (C01State (filter (fun p => negb (known p)) new ++ ca_acked st) (ca_down st) (ca_lost st) (ca_max st), code)
+  | OInstall node a _ _ f, RInstalled _ _ _ =>
+      (* an authority older than one already installed is a stale leader being told its old authority
+         again (an idempotent answer, or a recovery whose writes the voters fence): not a failover *)
+      match compareAuthorityID a (ca_max st) with
+      | Lt => (st, 0)
+      | _ =>
       let lost := filter (fun p => negb (holds full node p)) (ca_acked st) in
       match lost with
-      | [] => (st, 0)
+      | [] => (C01State (ca_acked st) (ca_down st) (ca_lost st) a, 0)
       | _ =>
           let q := cf_quorum cfg in
           (* voters whose answer to the FRONTIER round arrived / to every round (identity pages too) *)
@@ -85,11 +92,12 @@ Definition c01_step (cfg : qconfig) (st : c01_state) (prev : list (N * robs))
           let k2p (p : N * N) := guard && (countb (fun w => holds prev w p) stable <? q) in
           let explained := forallb (fun p => k1p p || k2p p) lost in
           (C01State (filter (fun p => holds full node p) (ca_acked st)) (ca_down st)
-                    (if explained then lost ++ ca_lost st else ca_lost st),
+                    (if explained then lost ++ ca_lost st else ca_lost st) a,
            if negb explained then 1 else if forallb k1p lost then 2 else 3)
       end
-  | ODown node, _ => (C01State (ca_acked st) (node :: filter (fun v => negb (v =? node)) (ca_down st)) (ca_lost st), 0)
-  | OUp node, _ => (C01State (ca_acked st) (filter (fun v => negb (v =? node)) (ca_down st)) (ca_lost st), 0)
+      end
+  | ODown node, _ => (C01State (ca_acked st) (node :: filter (fun v => negb (v =? node)) (ca_down st)) (ca_lost st) (ca_max st), 0)
+  | OUp node, _ => (C01State (ca_acked st) (filter (fun v => negb (v =? node)) (ca_down st)) (ca_lost st) (ca_max st), 0)
   | _, _ => (st, 0)
   end.
 
@@ -102,7 +110,7 @@ Fixpoint c01_run (cfg : qconfig) (st : c01_state) (prev : list (N * robs))
   end.
 
 Definition c01_code (cfg : qconfig) (steps : list (qop * qres * list (N * robs))) : N :=
-  c01_run cfg (C01State [] [] []) [] steps.
+  c01_run cfg (C01State [] [] [] authid_zero) [] steps.
 
 Definition C01_mismatch : qcase -> bool := q_mismatch.
 Definition C01_monitor (c : qcase) : N := c01_code (cs_cfg c) (expand_steps [] (cs_steps c)).
